@@ -117,7 +117,7 @@ PROPS["C04"] = {
              "mode 'faults' additionally fails one SQL statement inside a third of the ops (io/busy/badconn/full/ctx, fail-stop): the op may fail, then the model does not move; it may never succeed with another effect. "
              "mode 'bulk': 101..2500 (quick) / ..10001 (thorough) relationships inserted in bulk, listed with page sizes 0 / 1000 / 5000 / n-1 / n / n+1 / 100000, deleted by query and in bulk, compared with the model after every step (sizes are spread around every boundary an implementation might batch at; none is copied from the code). "
              "non-trivial = history applied >=3 writes; distinct = hash of the whole history with responses."),
-    "probes": ["writes_applied", "invalid_ops", "probe_multi_page_list", "probe_check_allowed", "probe_entry_with_both_subject_kinds", "probe_over_1000_rows", "bulk_delete_by_query", "bulk_delete_explicit"],
+    "probes": ["writes_applied", "invalid_ops", "probe_multi_page_list", "probe_check_allowed", "probe_entry_with_both_subject_kinds", "probe_over_1000_rows", "probe_bulk_write_with_one_invalid_entry", "bulk_delete_by_query", "bulk_delete_explicit"],
     "real": REAL_S, "stub": STUB_S,
     "fault_kinds": {"io": "statement returns an I/O error", "busy": "'database is locked' (pop retries)", "badconn": "driver.ErrBadConn (database/sql retries outside a tx)", "full": "SQLITE_FULL", "ctx": "context.Canceled"},
     "assumptions": ["ops run to completion one at a time (conformance loop, not a concurrency test)", "model R2 (sim/sys.go) is the specification of the multiset store"],
